@@ -116,7 +116,7 @@ func (a *kAggregate) Next(ctx context.Context) ([]model.StepVector, error) {
 	for i, vector := range in {
 		// Same rule as the Prometheus engine: a parameter that cannot be an
 		// int64 (NaN, overflow) fails the query.
-		if !(a.params[i] <= math.MaxInt64 && a.params[i] >= math.MinInt64) {
+		if !convertibleToInt64(a.params[i]) {
 			return nil, errors.Newf("Scalar value %v overflows int64", a.params[i])
 		}
 		a.aggregate(vector.T, &result, int(int64(a.params[i])), vector.SampleIDs, vector.Samples)
@@ -124,6 +124,12 @@ func (a *kAggregate) Next(ctx context.Context) ([]model.StepVector, error) {
 	}
 
 	return result, nil
+}
+
+// convertibleToInt64 uses the bounds of the Prometheus engine: the largest
+// float64 below 2^63 and the smallest int64.
+func convertibleToInt64(v float64) bool {
+	return v <= 9223372036854774784 && v >= -9223372036854775808
 }
 
 func (a *kAggregate) validateRemainingParams(ctx context.Context) error {
@@ -137,7 +143,7 @@ func (a *kAggregate) validateRemainingParams(ctx context.Context) error {
 		}
 		for i := range args {
 			if len(args[i].Samples) > 0 {
-				if k := args[i].Samples[0]; !(k <= math.MaxInt64 && k >= math.MinInt64) {
+				if k := args[i].Samples[0]; !convertibleToInt64(k) {
 					return errors.Newf("Scalar value %v overflows int64", k)
 				}
 			}
